@@ -53,7 +53,7 @@ impl Property for C08 {
         "C08"
     }
     fn rule(&self) -> &'static str {
-        "proptest: retention in {0,1,2,3,5,7,8,15,16,17,31,32,64,100,2^63,u64::MAX-3,u64::MAX-1,u64::MAX}, 1-4 initial sets, in one case in seven 1-69 honest warm-up rotations first (so that windows of 16, 32, 64 sets are actually filled and crossed), history of <=9 (quick) / <=14 (thorough) rotation attempts (proving set = any installed set, bypass flag, operator authorisation), optionally with up to 99 days passing before a step, and with the owner upgrading and migrating the gateway before some steps (retention and installed sets must be carried over), (<= 300 in total), and with candidates that are already installed (must fail and must not age any set). After construction and after every step EVERY installed set (in histories of more than 12 sets: the newest and oldest two and every set within two epochs of the configured window edge or of 8, 16, 32, 64) is probed on both paths: validate_proof over a fresh data hash and approve_messages of a unique message (sets outside the window additionally with a batch of already approved messages). Oracle: honoured iff current_epoch - epoch(set) <= retention (validate_proof's flag true exactly for the newest set); a rotation attempt succeeds iff the proving set is the newest (no bypass) or within the window (bypass with operator authorisation). non-trivial = some probe lies exactly on the boundary (current - epoch in {retention, retention+1}); distinct by Debug hash"
+        "proptest: retention in {0,1,2,3,5,7,8,15,16,17,31,32,64,100,2^63,u64::MAX-3,u64::MAX-1,u64::MAX}, 1-4 initial sets, in one case in seven 1-69 honest warm-up rotations first (so that windows of 16, 32, 64 sets are actually filled and crossed), history of <=9 (quick) / <=14 (thorough) rotation attempts (proving set = any installed set, bypass flag, operator authorisation), optionally with up to 99 days passing before a step, and with the owner upgrading and migrating the gateway before some steps (retention and installed sets must be carried over), (<= 300 in total), and with candidates that are already installed (must fail and must not age any set). After construction and after every step EVERY installed set (in histories of more than 12 sets: the newest and oldest two and every set within two epochs of the configured window edge or of 8, 16, 32, 64) is probed on both paths: validate_proof over a fresh data hash and approve_messages of a unique message (sets outside the window additionally with a batch of already approved messages). Some approval commands are signed and shown to the standalone proof check at one step and submitted byte for byte at the next probe point (after whatever rotations happened in between). Oracle: honoured iff current_epoch - epoch(set) <= retention (validate_proof's flag true exactly for the newest set); a rotation attempt succeeds iff the proving set is the newest (no bypass) or within the window (bypass with operator authorisation). non-trivial = some probe lies exactly on the boundary (current - epoch in {retention, retention+1}); distinct by Debug hash"
     }
     fn cases(&self, tier: Tier) -> u64 {
         tier.pick(3000, 40000)
@@ -79,9 +79,29 @@ impl Property for C08 {
         let mut days_passed: u32 = 0;
         let mut last_approved: Option<Message> = None;
         let boundary = std::cell::Cell::new(false);
+        // commands that were signed and shown to the standalone proof check at one point of the history and are
+        // submitted, byte for byte, at a later one: (hash of the signing set, message, data hash, proof)
+        let mut signed_earlier: Vec<([u8; 32], Message, axelar_gateway::types::Proof)> = vec![];
 
         let mut probe_all = |installed: &Vec<BuiltSet>, model: &SignerModel, at: &str, cx: &mut Cx| -> Result<(), String> {
             let many = installed.len() > 12;
+            // first: what was signed (and pre-checked) at an earlier point is submitted now, unchanged
+            for (h, m, proof) in std::mem::take(&mut signed_earlier) {
+                let e = model.by_hash[&h];
+                let live = model.epoch - e <= retention;
+                let mut v = soroban_sdk::Vec::new(&env);
+                v.push_back(m.clone());
+                let r = gw.client.try_approve_messages(&v, &proof);
+                let ok = matches!(r, Ok(Ok(())));
+                cx.label("command_signed_and_prechecked_earlier_submitted_later");
+                if live {
+                    cx.count("must_succeed");
+                    ensure_p!(ok, "{}: a command signed earlier by the set installed at epoch {} (still inside the window: current {}, retention {}) was refused: {:?}", at, e, model.epoch, retention, r);
+                } else {
+                    cx.count("must_fail");
+                    ensure_p!(!ok, "{}: a command signed earlier by the set installed at epoch {}, and shown to the standalone proof check at that time, was honoured now although that set has left the window (current {}, retention {})", at, e, model.epoch, retention);
+                }
+            }
             for (i, s) in installed.iter().enumerate() {
                 let h = s.hash();
                 let e = model.by_hash[&h];
@@ -134,6 +154,15 @@ impl Property for C08 {
                     cx.count("must_succeed");
                     ensure_p!(r.is_ok() && approved, "{}: approval by set installed at epoch {} refused (current {}, retention {}): {:?}", at, e, model.epoch, retention, r);
                     last_approved = Some(m.clone());
+                    if signed_earlier.len() < 2 && probe_no % 3 == 0 {
+                        probe_no += 1;
+                        let m2 = Message { message_id: sstr(&env, &format!("later-{}", probe_no)), ..m.clone() };
+                        let dh = approve_data_hash(&[message_sv(&env, &m2)]);
+                        let proof = s.proof(&env, &digest(&gw.domain, &h, &dh), s.full_mask());
+                        let pre = gw.client.try_validate_proof(&BytesN::from_array(&env, &dh), &proof);
+                        ensure_p!(matches!(pre, Ok(Ok(_))), "{}: standalone check of a live set's proof over an approval command failed: {:?}", at, pre);
+                        signed_earlier.push((h, m2, proof));
+                    }
                 } else {
                     cx.count("must_fail");
                     ensure_p!(r.is_err() && !approved, "{}: approval by set installed at epoch {} honoured although current epoch is {} and retention {}", at, e, model.epoch, retention);
